@@ -141,6 +141,18 @@ PROPS = {
             "merge: its error exits carry one clause, C20.merge.err_usable_after (the Writer invariant still holds), which does NOT hold on the current code: OPEN KNOWN FINDING D8 (a merge that fails after creating an output leaves ids above the active id and wedges every later rollover), reproduced on the real code by the replayer. Nothing else is claimed about a failed merge (e.g. which inputs are already gone)",
         ],
     },
+    "C03": {
+        "units": ["store", "log"],
+        "label_prefixes": ["C03.", "C04.append.flushed_before_ack", "C02.iter.", "C20.write.err_recoverable", "C20.put.err_recoverable", "C20.delete.err_recoverable", "C02.put.recoverable", "C02.delete.recoverable",
+                           "C02.rollover.log_unchanged", "C20.new_active.err_unchanged", "C02.write.log_push", "C02.rebuild.is_spec_recover"],
+        "level": "proof",
+        "trusted": ["T1", "T4", "T8", "T11", "T12", "T13", "T13s", "TLOG", "TARC", "RW", "DERIVE"],
+        "assumptions": [
+            "SCOPE: the write path only -- set, delete and the file rollover they may trigger. A killed process leaves the effects of a prefix of its system calls; in the World that is the state after a prefix of the World calls of the operation in flight. Writer::write carries a ghost checkpoint after EVERY World call (entry, after append, after the optional sync, after the rollover): crash_point requires that a restart from that very state (spec_recover, which rebuild_storage is proved to compute: C02.rebuild.is_spec_recover) yields the map before the operation or the map with the operation applied (C03.write.crash_point), given that the operation started from a recoverable state. put / delete add no World call of their own. A kill INSIDE a World call (a record written in part, a file created or not) leaves a state the World also produces when that call fails; those states are covered by the error exits of the same functions (C20.write/put/delete.err_recoverable, C20.new_active.err_unchanged), which this check counts",
+            "NOT proved: a kill during a merge (copy loop, hint writes, removal of the inputs) and during start-up itself; the log-level merge theorem (C05) speaks about completed merges only. For these the thorough tier and the witness search enumerate EVERY kill point on the real code for a few histories (tools/crashsearch.py: strace delivers SIGKILL on entry to the j-th openat / write / fsync / unlink on a store file; the directory is then reopened and compared with the map model) -- a bounded check, never counted as proved",
+            "that a torn tail (a record written in part) is skipped cleanly by the loader rests on LogIterator::next mapping UnexpectedEof to end-of-file (verified in unit log: C02.iter.*) and on bincode's encoding being self-delimiting (T11)",
+        ],
+    },
     "C09": {
         "units": ["store"], "label_prefixes": ["C09."], "level": "proof",
         "trusted": ["T1", "T4", "T8", "T11", "T12", "T12S", "T13", "T13s", "TLOG", "TARC", "RW", "DERIVE"],
